@@ -175,6 +175,11 @@ func c18Getters(p *core.Program, r *core.Report) {
 		if !parses {
 			continue
 		}
+		// scalar getters only: a getter that collects parsed tokens into a set/list skips the malformed
+		// ones instead of falling back to a default
+		if res := fi.Obj.Type().(*types.Signature).Results(); res.Len() != 1 || !isBasicType(res.At(0).Type()) {
+			continue
+		}
 		ginfo := fi.Pkg.TypesInfo
 		gnorm := func(e ast.Expr) string { return stripSpaces(types.ExprString(e)) }
 		ps, _ := paths.Enumerate(fi.Decl.Body, paths.Config{Info: ginfo,
